@@ -39,7 +39,8 @@ type comment struct{ v string }
 
 func (c comment) CommentValue() string { return c.v }
 
-// event kinds: 0 start element, 1 end, 2 namespace p1, 3 namespace p2, 4 attribute, 5 text, 6 comment
+// event kinds: 0 start element, 1 end, 2 namespace p1, 3 namespace p2, 4 attribute, 5 text, 6 comment,
+// 7 undeclaration of p (a namespace event with an empty URI: the element and its descendants have no node for p)
 type scripted struct {
 	ev []int
 	i  int
@@ -60,6 +61,8 @@ func (s *scripted) Pull() (node.Node, bool, error) {
 		return nsn{"p", fmt.Sprintf("u%d", s.i)}, false, nil
 	case 3:
 		return nsn{"q", fmt.Sprintf("w%d", s.i)}, false, nil
+	case 7:
+		return nsn{"p", ""}, false, nil
 	case 4:
 		return attr{"", fmt.Sprintf("a%d", s.i), "v"}, false, nil
 	case 5:
@@ -97,6 +100,8 @@ func buildRef(ev []int) *ref {
 			cur.ns["p"] = fmt.Sprintf("u%d", id)
 		case 3:
 			cur.ns["q"] = fmt.Sprintf("w%d", id)
+		case 7:
+			cur.ns["p"] = ""
 		case 4:
 			cur.attrs = append(cur.attrs, fmt.Sprintf("a%d", id))
 		case 5:
@@ -113,6 +118,11 @@ func buildRef(ev []int) *ref {
 				if _, ok := r.ns[p]; !ok {
 					r.ns[p] = v
 				}
+			}
+		}
+		for p, v := range r.ns {
+			if v == "" {
+				delete(r.ns, p) // undeclared: no node here, nothing for the descendants to inherit
 			}
 		}
 		for _, c := range r.children {
@@ -137,7 +147,7 @@ func conforming(ev []int) bool {
 			if len(stack) > 1 {
 				stack = stack[:len(stack)-1]
 			}
-		case 2, 3:
+		case 2, 3, 7:
 			if top.phase > 0 {
 				return false
 			}
@@ -277,7 +287,7 @@ func main() {
 		if len(ev) == *max {
 			return
 		}
-		for k := 0; k < 7; k++ {
+		for k := 0; k < 8; k++ {
 			rec(append(ev, k))
 		}
 	}
